@@ -136,15 +136,15 @@ fn judge(
 }
 
 /// One `calls` work item: one signature at one site, all calls, registered in one instance.
-fn run_calls_item(sig: &Sig, site: Site, calls: &[Call], autoescape: bool, acc: &mut Acc, sample: bool) {
+fn run_calls_item(cname: &str, sig: &Sig, site: Site, calls: &[Call], autoescape: bool, acc: &mut Acc, sample: bool) {
     let ext = ext_of(autoescape);
-    let shared = comp::shared_templates(sig, COMP, ext);
+    let shared = comp::shared_templates(sig, cname, ext);
     let mut tpls = shared.clone();
     let mut progs = Vec::with_capacity(calls.len());
     for (i, call) in calls.iter().enumerate() {
         let m = call.spread_map();
-        let expr = (call.body == BodyKind::SelfClosing).then(|| call.expression(COMP));
-        let prog = comp::site_program(site, &call.source(COMP), expr.as_deref(), &m, &i.to_string(), ext);
+        let expr = (call.body == BodyKind::SelfClosing).then(|| call.expression(cname));
+        let prog = comp::site_program(site, &call.source(cname), expr.as_deref(), &m, &i.to_string(), ext);
         tpls.extend(prog.templates.iter().cloned());
         progs.push((prog, m));
     }
@@ -152,6 +152,7 @@ fn run_calls_item(sig: &Sig, site: Site, calls: &[Call], autoescape: bool, acc: 
     let batch_ok = engine::add_templates(&mut tera, &tpls).is_ok();
     let mut tally = Tally::default();
     let declared = sig.declared_names().len();
+    let mut sampled = false;
 
     for (i, call) in calls.iter().enumerate() {
         let (prog, m) = &progs[i];
@@ -197,7 +198,7 @@ fn run_calls_item(sig: &Sig, site: Site, calls: &[Call], autoescape: bool, acc: 
         let verdict = comp::bind(sig, &supplied);
         let expected = match &verdict {
             Verdict::Bound(b) | Verdict::Either(b, _) => {
-                let text = comp::expected_component(sig, COMP, b, call, &scope, autoescape);
+                let text = comp::expected_component(sig, cname, b, call, &scope, autoescape);
                 let full = comp::site_wrap(site, &text.text);
                 let prefix = full.find(&text.text).unwrap_or(0);
                 Some((text, full, prefix))
@@ -216,7 +217,8 @@ fn run_calls_item(sig: &Sig, site: Site, calls: &[Call], autoescape: bool, acc: 
                 tally_bound(&mut tally, b);
             }
         }
-        if sample && i == 77 {
+        if sample && !sampled && (class == "bound" || i + 1 == calls.len()) {
+            sampled = true;
             acc.sample(|| {
                 let mut d = case();
                 d.as_object_mut().unwrap().insert("observed".into(), json!(out.show()));
@@ -241,17 +243,17 @@ fn run_calls_item(sig: &Sig, site: Site, calls: &[Call], autoescape: bool, acc: 
             };
             let actx = ctx_of(&supplied);
             let aout = engine::to_out(engine::guarded(|| {
-                t.render_component(COMP, &actx, body.as_deref(), autoescape)
+                t.render_component(cname, &actx, body.as_deref(), autoescape)
             }));
             let aexp = expected.as_ref().map(|(text, _, _)| (text.clone(), text.text.clone(), 0usize));
             let acase = || {
                 json!({
                     "templates": shared.iter().map(|(n, s)| json!({"name": n, "source": s})).collect::<Vec<_>>(),
-                    "api": format!("render_component({COMP:?}, context, body, autoescape={autoescape})"),
+                    "api": format!("render_component({cname:?}, context, body, autoescape={autoescape})"),
                     "context": supplied.iter().map(|(n, v)| format!("{n} = {}", v.describe())).collect::<Vec<_>>(),
                     "body": body,
                     "signature": sig.describe(),
-                    "equivalent_template_call": call.source(COMP),
+                    "equivalent_template_call": call.source(cname),
                     "template_call_gave": out.show(),
                 })
             };
@@ -967,7 +969,7 @@ fn main() {
         |item, acc: &mut Acc| {
             let sig = &sigs[(item / nsite) as usize];
             let site = sites[(item % nsite) as usize];
-            run_calls_item(sig, site, &calls, true, acc, item % 97 == 5);
+            run_calls_item(COMP, sig, site, &calls, true, acc, item % 97 == 41);
         },
     );
 
@@ -981,7 +983,7 @@ fn main() {
             "calls-noescape",
             n_ne * nsite,
             &format!(
-                "{n_ne} signatures (quick type alphabet{}) x {} calls x {nsite} call sites in .txt templates (autoescape off); + API with autoescape=false",
+                "{n_ne} signatures (quick type alphabet{}) x {} calls x {nsite} call sites in .txt templates (autoescape off), component under the dotted name `ns.X`; + API with autoescape=false",
                 if thorough { "" } else { ", p only" },
                 ne_calls.len()
             ),
@@ -989,7 +991,7 @@ fn main() {
         |item, acc: &mut Acc| {
             let sig = &ne_sigs[(item / nsite) as usize];
             let site = sites[(item % nsite) as usize];
-            run_calls_item(sig, site, &ne_calls, false, acc, item % 97 == 5);
+            run_calls_item("ns.X", sig, site, &ne_calls, false, acc, item % 97 == 5);
         },
     );
 
@@ -1106,7 +1108,7 @@ fn main() {
                 "pairs",
                 nqs * nq,
                 &format!(
-                    "{nqs} signatures (quick alphabet) x all ordered pairs of the {} self-closing calls, written one after the other in one template",
+                    "{nqs} signatures (quick alphabet) x every ordered pair (first, second) of the {} self-closing calls whose first call the binding table accepts, written one after the other in one template",
                     q_args.len()
                 ),
             ),
@@ -1129,6 +1131,12 @@ fn main() {
                 let judged: Vec<(Verdict, Option<String>)> = q_args.iter().map(judge_one).collect();
                 for (i1, c1) in firsts.iter().enumerate() {
                     let (v1, t1) = &judged[p1 * per_p + i1];
+                    if matches!(v1, Verdict::Reject(_)) {
+                        // a rejected first call aborts the render before the second one is reached;
+                        // such calls are covered one by one in `calls`
+                        acc.count("first-calls-rejected-by-the-table-not-paired", 1);
+                        continue;
+                    }
                     let mut tpls = shared.clone();
                     for (i2, c2) in q_args.iter().enumerate() {
                         tpls.push((
@@ -1417,6 +1425,41 @@ fn main() {
                     }
                     acc.case(true, &format!("supplied:{}", b.class()));
                 }
+            }
+        },
+    );
+
+    // ---------------------------------------------------------------- reserved-body (pinned)
+    let rb_defs: [&str; 6] = ["body", "body = 1", "p, body: string", "...body", "p = 1, ...body", "Body"];
+    let rb_calls: [&str; 4] = [
+        "{{ <X body=\"zz\" /> }}",
+        "{% <X body=\"zz\"> %}real{% </X> %}",
+        "{{ <X p={1} body=\"zz\" /> }}",
+        "{% <X> %}real{% </X> %}",
+    ];
+    run.family(
+        Family::new(
+            "reserved-body",
+            (rb_defs.len() + 4) as u64,
+            "the reserved name `body`: 6 definitions that try to declare it, and an explicit body=\"zz\" attribute on closed / open components: outcomes recorded, only no-panic asserted",
+        ),
+        |item, acc: &mut Acc| {
+            let i = item as usize;
+            let (params, calls): (&str, &[&str]) = if i < rb_defs.len() {
+                (rb_defs[i], &rb_calls[3..])
+            } else {
+                (["", "...rest", "p = 2", "p = 2, ...rest"][i - rb_defs.len()], &rb_calls[..])
+            };
+            let def = format!("{{% component X({params}) %}}<{{{{ body | default(value=\"NOBODY\") }}}}|{{{{ rest | default(value=\"NOREST\") }}}}>{{% endcomponent X %}}");
+            for call in calls {
+                let tpls = vec![("c.html".to_string(), def.clone()), ("t.html".to_string(), call.to_string())];
+                let mut tera = new_tera();
+                let added = engine::add_templates(&mut tera, &tpls);
+                let out = if added.is_ok() { engine::render(&tera, "t.html", &Context::new()) } else { added.clone() };
+                if out.is_panic() {
+                    acc.violation("panic:reserved-body", out.show(), || json!({"templates": tpls}));
+                }
+                acc.case(true, &format!("pinned:X({params}):{}:{}", if added.is_ok() { "registered" } else { "refused" }, out.coarse()));
             }
         },
     );
